@@ -244,6 +244,8 @@ def lean_type(t):
         return 'Exc'
     if t == 'module':
         return 'String'
+    if t == 'numdb':
+        return 'List Spec.NumDB.Entry'
     if is_list(t):
         if elem(t) == '?':
             raise Unsupported('list of unknown element type')
@@ -273,6 +275,8 @@ def default_value(t):
         return '(default : Re.Match)'
     if t == 'module':
         return '""'
+    if t == 'numdb':
+        return '([] : List Spec.NumDB.Entry)'
     if is_list(t) or is_dict(t):
         return '([] : %s)' % lean_type(t)
     if is_opt(t):
